@@ -147,9 +147,8 @@ func (d *Decimal) setString(c *Context, s string) (Condition, error) {
 	if isNaN {
 		if s != "" {
 			// We ignore these digits, but must verify them.
-			_, err := strconv.ParseUint(s, 10, 64)
-			if err != nil {
-				return 0, fmt.Errorf("parse payload: %s: %w", s, err)
+			if !isDigits(s) {
+				return 0, fmt.Errorf("parse payload: %s", s)
 			}
 		}
 		return 0, nil
